@@ -17,6 +17,8 @@
    lock released per chunk) rejected with two workers and with a seal-up; replayed on the real file plugin (barrier + sealUp).
    Connection-oriented sink: specs/OutputStreamSink.tla (whole frames per connection, connection abandoned after a failed or
    partial write; mutant M_ReconnectAfterFailedWrite rejected), replayed on the real gelf output with a stalled receiver.
+   Transport (specs/OutputTransport.tla): endpoint lists with dead endpoints x gzip, mutant M_BodyBuiltOncePerAttempt rejected.
+   Gelf field names (specs/GelfFieldName.tla): formatExtraField over ASCII / non-ASCII name alphabets, mutant M_NameBytesAsciiOnly.
 2. The cases are replayed into the REAL output plugins (elasticsearch, kafka, file, splunk, http, loki, gelf), each
    event carrying adversarial values in the routing/label fields; every captured body is parsed back in the sink's
    framing (abstraction function) and compared with the expectation: BodyIs, FramingOK, SplitCovers.
@@ -44,6 +46,8 @@ QUICK_DEFAULT_N = 2000
 FAULT_SINKS = {"elasticsearch", "http", "splunk", "loki", "kafka"}   # RetriableBatcher + a sink that can answer 5xx
 
 
+GZIP_SINKS = {"elasticsearch", "http", "splunk"}                      # outputs with use_gzip (loki has none)
+ENDPOINT_SINKS = {"elasticsearch", "http"}                            # outputs with a list of endpoints
 ROUTE_SINKS = {"kafka", "elasticsearch", "splunk", "gelf"}             # the routing value is taken per event
 
 
@@ -80,6 +84,7 @@ def shape_key(c):
 
 def compact(c):
     return {"split": c["split"], "batches": c["batches"], "pats": c["pats"], "variant": c.get("variant", ""),
+            "gzip": c.get("gzip", False), "dead": c.get("dead", 0),
             "fail": c.get("fail") or [False] * len(c["batches"]), "dq": c.get("dq", False)}
 
 
@@ -227,6 +232,34 @@ def file_sink_concurrency(ctx, binary, recs):
                            "overlap actually achieved is measured (evidence: file_sink_concurrency) - with GOMAXPROCS=1 it is usually none")
 
 
+def gelf_names(ctx, binary, recs, cases):
+    """specs/GelfFieldName.tla on the real gelf output: every exported name becomes a field name of an event that the plugin's
+    own formatEvent turns into a GELF message."""
+    if len(cases) < 500:
+        raise vlib.Infra("GelfFieldName exported only %d names" % len(cases))
+    path = os.path.join(ctx.scratch, "c19_gelfnames_cases.ndjson")
+    outp = os.path.join(ctx.scratch, "c19_gelfnames_out.json")
+    with open(path, "w") as f:
+        for c in sorted(cases, key=lambda c: json.dumps(c["name"])):
+            f.write(json.dumps({"name": c["name"], "want": c["want"]}) + "\n")
+    rc, txt = ctx.run_bin(binary, "^TestVerifC19GelfNames$", env={"VERIF_CASES": path, "VERIF_OUT": outp, "LOG_LEVEL": "error"}, timeout=600)
+    if rc != 0 or not os.path.exists(outp):
+        if "panic:" in txt and "gelf.go" in txt:
+            recs.append({"kind": "panic", "sink": "gelf", "stage": "gelf_names", "panic": txt[txt.index("panic:"):][:600]})
+            return
+        raise vlib.Infra("C19 gelf names harness failed rc=%s:\n%s" % (rc, txt[-3000:]))
+    r = json.load(open(outp))
+    if r["executed"] != len(cases):
+        raise vlib.Infra("C19 gelf names harness executed %d of %d names" % (r["executed"], len(cases)))
+    for v in r["violations"] or []:
+        recs.append(dict(v, sink="gelf", stage="gelf_names", violations_in_run=r["n_violations"]))
+    ctx.evaluations += r["executed"]
+    ctx.traces_validated += r["executed"]
+    ctx.extra["gelf_names"] = {"names": r["executed"], "violations": r["n_violations"]}
+    ctx.nontrivial.add(("gelf_names", "names with non-ASCII letters / digits and ASCII punctuation"))
+    vlib.log("C19 gelf field names: names=%d violations=%d" % (r["executed"], r["n_violations"]))
+
+
 def gelf_stream(ctx, binary, recs):
     """specs/OutputStreamSink.tla on the real gelf output: a receiver with a small buffer stalls until the write of a payload
     larger than the socket buffers has timed out part-way, then the same batch is sent again (as the RetriableBatcher does);
@@ -276,6 +309,8 @@ def run(ctx):
     bg.__dict__.update(ctx.__dict__)
     bg._n, bg.tlc_runs = 1000, []
 
+    side_results = {}
+
     def side_runs():
         # strict statement: must fail with the deviation, must hold without it
         r = bg.tlc("OutputPayload", "OutputPayload_strict.cfg", deadlock=False, timeout=900, workers=4,
@@ -289,6 +324,14 @@ def run(ctx):
             raise vlib.Infra("strict SplitCovers with D14 off should hold: %s\n%s" % (r.violated, r.out[-2000:]))
         # spec mutants: each mechanism switch turned off must break an invariant
         mutants = {}
+        t = bg.tlc("OutputTransport", "OutputTransport_quick.cfg", deadlock=False, timeout=600, workers=2,
+                   name="OutputTransport: the body that reaches a sink is the payload, whatever endpoints failed, gzip or not")
+        if not t.ok:
+            raise vlib.Infra("OutputTransport should hold: %s" % t.violated)
+        tm = bg.tlc("OutputTransport", "OutputTransport_quick.cfg", deadlock=False, timeout=600, workers=2,
+                    overrides={"M_BodyBuiltOncePerAttempt": "FALSE"}, name="mutant M_BodyBuiltOncePerAttempt off")
+        if tm.ok or tm.violated != "BodyIsPayload":
+            raise vlib.Infra("spec mutant M_BodyBuiltOncePerAttempt=FALSE is not rejected by BodyIsPayload")
         for sw in ("M_ResetBegin", "M_ResetBuf", "M_SkipParent", "M_ReencodeAfterGiveUp", "M_TopicPerEvent"):
             m = bg.tlc("OutputPayload", "OutputPayload_mut.cfg", deadlock=False, timeout=900, workers=4,
                        overrides={sw: "FALSE"}, name="mutant %s off" % sw)
@@ -317,6 +360,17 @@ def run(ctx):
         if m.ok or m.kind != "invariant":
             raise vlib.Infra("spec mutant M_ReconnectAfterFailedWrite=FALSE is not rejected")
         mutants["M_ReconnectAfterFailedWrite"] = m.violated
+        mutants["M_BodyBuiltOncePerAttempt"] = tm.violated
+        g = bg.tlc("GelfFieldName", "GelfFieldName_quick.cfg" if quick else "GelfFieldName_thorough.cfg", deadlock=False, timeout=900,
+                   workers=4, name="GelfFieldName: formatExtraField over name alphabets")
+        if not g.ok:
+            raise vlib.Infra("GelfFieldName should hold: %s\n%s" % (g.violated, g.out[-1500:]))
+        side_results["gelf_names"] = g.printed
+        gm = bg.tlc("GelfFieldName", "GelfFieldName_mut.cfg", deadlock=False, timeout=600, workers=2,
+                    overrides={"M_NameBytesAsciiOnly": "FALSE"}, name="mutant M_NameBytesAsciiOnly off")
+        if gm.ok or gm.kind != "invariant":
+            raise vlib.Infra("spec mutant M_NameBytesAsciiOnly=FALSE is not rejected")
+        mutants["M_NameBytesAsciiOnly"] = gm.violated
         return mutants
     side_f = pool.submit(side_runs)
 
@@ -352,6 +406,12 @@ def run(ctx):
             c = json.loads(json.dumps(c))
             c["n"] = n
             c["variant"] = "raw" if sink == "http" and rng.random() < 0.3 else ""
+            # transport dimensions (specs/OutputTransport.tla): use_gzip, and dead endpoints next to the live one. Only for
+            # batches that are one request (no 413 pattern, no scripted 5xx): a transport error restarts the whole attempt
+            c["gzip"], c["dead"] = False, 0
+            if sink in GZIP_SINKS and not is_fault(c) and all(len(pt) == 0 for pt in c["pats"]) and rng.random() < 0.2:
+                c["gzip"] = rng.random() < 0.7
+                c["dead"] = rng.choice([1, 1, 2]) if sink in ENDPOINT_SINKS else 0
             esc_case = rng.random() < 0.2
             for b in c["batches"]:
                 for e in b:
@@ -386,6 +446,7 @@ def run(ctx):
                 c["batches"] = v["case"]["batches"]               # with the recorded value classes
                 c["variant"] = v["case"].get("variant", "")
                 c["dq"] = v["case"].get("dq", False)
+                c["gzip"], c["dead"] = v["case"].get("gzip", False), v["case"].get("dead", 0)
                 c["n"] = len(out)
                 out.append(c)
             per_sink[sink] = out
@@ -407,7 +468,7 @@ def run(ctx):
         with open(path, "w") as f:
             for c in sel:
                 f.write(json.dumps({"n": c["n"], "variant": c.get("variant", ""), "split": c["split"],
-                                    "batches": c["batches"], "pats": c["pats"],
+                                    "batches": c["batches"], "pats": c["pats"], "gzip": c.get("gzip", False), "dead": c.get("dead", 0),
                                     "fail": c.get("fail") or [False] * len(c["batches"]), "dq": c.get("dq", False)}) + "\n")
         outp = os.path.join(ctx.scratch, "c19_%s_out.ndjson" % sink)
         rc, txt = ctx.run_bin(bins[sink], "^TestVerifC19$", env={"VERIF_CASES": path, "VERIF_OUT": outp, "LOG_LEVEL": "error"}, timeout=2400)
@@ -443,6 +504,18 @@ def run(ctx):
                         vlib.log("MODEL-DRIFT: elasticsearch request sequence differs from the transcription (property held): "
                                  "case=%s real=%s model=%s" % (json.dumps(compact(c)), real, model))
         per_sink_stats[sink] = {"cases": len(sel), "batches": nb}
+        if sink in ENDPOINT_SINKS and replay_recs is None:
+            with_dead = [c for c in sel if c.get("dead")]
+            hits = sum(results[c["n"]].get("dead_hits", 0) for c in with_dead)
+            hit_cases = sum(1 for c in with_dead if results[c["n"]].get("dead_hits", 0) > 0)
+            per_sink_stats[sink].update({"cases_with_dead_endpoints": len(with_dead), "cases_that_hit_a_dead_endpoint": hit_cases,
+                                         "connections_to_dead_endpoints": hits,
+                                         "gzip_cases": sum(1 for c in sel if c.get("gzip"))})
+            if len(with_dead) >= 20 and hit_cases * 4 < len(with_dead):
+                raise vlib.Infra("C19 %s: only %d of %d cases with dead endpoints ever reached a dead endpoint: the transport "
+                                 "dimension was not exercised" % (sink, hit_cases, len(with_dead)))
+            if hit_cases:
+                ctx.nontrivial.add((sink, "transport", "a dead endpoint was tried before the live one"))
         ctx.traces_validated += len(sel)
         ctx.evaluations += nb
         if sel:
@@ -464,6 +537,7 @@ def run(ctx):
         "http encoding.type=raw (30% of the http cases): an event without the encoded field has nothing to deliver and its empty line is tolerated",
         "fault family (elasticsearch, http, splunk, loki, kafka): one batch of the case is answered 5xx (kafka: produce error) on every attempt, retry=1, retention=1ms, fatal_on_failed_insert off, with and without a dead queue (a stand-in output); the given-up batch is a configured drop, the batches after it must be delivered exactly once with no byte of the given-up one",
         "routing per event (kafka topic incl. 'still intact after the committed events' buffers were overwritten', elasticsearch _index, splunk copy_fields target, gelf host) is compared with the event's own value / the sink default; the elasticsearch index is compared only when the action line is valid JSON (values needing escaping are the known finding)",
+        "transport (elasticsearch, http: 1-2 dead endpoints that accept and reset the connection + the live one; elasticsearch, http, splunk: use_gzip) on about a third of the one-request cases; the sink decodes all gzip members; that dead endpoints were really tried is measured (per_sink.*.cases_that_hit_a_dead_endpoint) and asserted",
         "the 413 clause is checked for elasticsearch only (as stated); only 413 answers are scripted, no other errors",
         "gzip off; byte-level escaping is checked only through 'parses back to the same JSON document'",
         "clickhouse / postgres / s3 / socket / stdout outputs are not covered",
@@ -472,6 +546,7 @@ def run(ctx):
         file_sink_concurrency(ctx, bins["file"], recs)
     if "gelf" in bins:
         gelf_stream(ctx, bins["gelf"], recs)
+        gelf_names(ctx, bins["gelf"], recs, side_results.get("gelf_names") or [])
     ctx.classify(recs)
     import c19_pipeline
     c19_pipeline.stage(ctx)      # pipeline side: Batch.ForEach yields exactly the deliverable events (recycled event objects, split)
